@@ -1188,8 +1188,12 @@ Proof.
       { rewrite Hvs, map_map. cbn [val_need]. clear. induction (b :: bs) as [|x l IH]; [reflexivity|].
         cbn [map list_sum fold_right length]. fold (list_sum (map (fun _ : N => 1%nat) l)). now rewrite IH. }
       rewrite Hs. rewrite Hvs at 1. rewrite map_length. lia.
-    + pose proof (brackets_need vs H). rewrite !app_length. cbn [length]. lia.
-  - pose proof (brackets_need vs H). rewrite !app_length. cbn [length]. lia.
+    + pose proof (brackets_need vs H) as Hb. rewrite !app_length. cbn [length].
+      revert Hb. generalize (Nat.max 1 (length vs + list_sum (map val_need vs)))
+                            (length (sep_by [44; 32] (map val_pp vs))). intros x y Hb. lia.
+  - pose proof (brackets_need vs H) as Hb. rewrite !app_length. unfold s_list. cbn [length].
+    revert Hb. generalize (Nat.max 1 (length vs + list_sum (map val_need vs)))
+                          (length (sep_by [44; 32] (map val_pp vs))). intros x y Hb. lia.
 Qed.
 
 (* MAIN THEOREM: the text printed for a well-formed value, followed by any rest that does not start with
@@ -1217,3 +1221,118 @@ Qed.
 Corollary type_display_roundtrip : forall t,
   ty_ok t = true -> tparse_top (ty_print_machine t) = Some (t, []).
 Proof. intros t H. rewrite ty_print_machine_eq. now apply type_roundtrip. Qed.
+
+(** * Part 7: the module printer *)
+
+Lemma lex_leb_total : forall a b, lex_leb a b = true \/ lex_leb b a = true.
+Proof.
+  induction a as [|x a IH]; intros [|y b]; cbn [lex_leb]; auto.
+  destruct (N.ltb_spec x y), (N.ltb_spec y x); auto; lia.
+Qed.
+
+Lemma lex_leb_antisym : forall a b, lex_leb a b = true -> lex_leb b a = true -> a = b.
+Proof.
+  induction a as [|x a IH]; intros [|y b]; cbn [lex_leb]; intros H1 H2; try discriminate; [reflexivity|].
+  destruct (N.ltb_spec x y), (N.ltb_spec y x); try discriminate; try lia.
+  assert (x = y) by lia. subst y. f_equal. now apply IH.
+Qed.
+
+Lemma lex_leb_trans : forall a b c, lex_leb a b = true -> lex_leb b c = true -> lex_leb a c = true.
+Proof.
+  induction a as [|x a IH]; intros [|y b] [|z c]; cbn [lex_leb]; intros H1 H2; try discriminate; try reflexivity.
+  destruct (N.ltb_spec x y), (N.ltb_spec y x), (N.ltb_spec y z), (N.ltb_spec z y),
+           (N.ltb_spec x z), (N.ltb_spec z x); try discriminate; try reflexivity; try lia.
+  now apply (IH b c).
+Qed.
+
+Definition entry_le (e1 e2 : entry) : Prop := lex_leb (fst e1) (fst e2) = true.
+(* strictly increasing byte-wise order of the names *)
+Definition lex_lt (a b : list N) : Prop := lex_leb a b = true /\ a <> b.
+
+Lemma mod_insert_perm : forall e l, Permutation (mod_insert e l) (e :: l).
+Proof.
+  intros e l. induction l as [|h t IH]; cbn [mod_insert]; [reflexivity|].
+  destruct (lex_leb (fst e) (fst h)); [reflexivity|].
+  rewrite IH. apply perm_swap.
+Qed.
+
+Lemma mod_sort_perm : forall l, Permutation (mod_sort l) l.
+Proof.
+  induction l as [|e t IH]; cbn [mod_sort]; [reflexivity|].
+  rewrite mod_insert_perm. now constructor.
+Qed.
+
+Lemma mod_insert_sorted : forall e l,
+  StronglySorted entry_le l -> StronglySorted entry_le (mod_insert e l).
+Proof.
+  intros e l H. induction H as [|h t Ht IH Hh]; cbn [mod_insert].
+  - constructor; constructor.
+  - destruct (lex_leb (fst e) (fst h)) eqn:E.
+    + constructor; [constructor; assumption|]. constructor; [exact E|].
+      eapply Forall_impl; [|exact Hh]. intros x Hx. unfold entry_le in *.
+      now apply (lex_leb_trans _ (fst h)).
+    + constructor; [exact IH|].
+      assert (Hhe : entry_le h e).
+      { unfold entry_le. destruct (lex_leb_total (fst h) (fst e)) as [H1|H1]; [exact H1|congruence]. }
+      eapply Permutation_Forall; [symmetry; apply mod_insert_perm|]. constructor; assumption.
+Qed.
+
+Lemma mod_sort_sorted : forall l, StronglySorted entry_le (mod_sort l).
+Proof.
+  induction l as [|e t IH]; cbn [mod_sort]; [constructor|]. now apply mod_insert_sorted.
+Qed.
+
+(* a list of entries with pairwise distinct names has exactly one sorted arrangement *)
+Lemma sorted_perm_unique : forall l1 l2,
+  StronglySorted entry_le l1 -> StronglySorted entry_le l2 ->
+  Permutation l1 l2 -> NoDup (map fst l1) -> l1 = l2.
+Proof.
+  induction l1 as [|a l1 IH]; intros [|b l2] S1 S2 P ND.
+  - reflexivity.
+  - apply Permutation_nil in P. discriminate.
+  - symmetry in P. apply Permutation_nil in P. discriminate.
+  - inversion S1 as [|a0 l0 S1' F1]; subst. inversion S2 as [|b0 l0 S2' F2]; subst.
+    cbn [map] in ND. inversion ND as [|k ks Hnotin ND']; subst.
+    assert (Hab : a = b).
+    { assert (Ha : In a (b :: l2)) by (eapply Permutation_in; [exact P|now left]).
+      assert (Hb : In b (a :: l1)) by (eapply Permutation_in; [symmetry; exact P|now left]).
+      destruct Ha as [Ha|Ha]; [now symmetry|]. destruct Hb as [Hb|Hb]; [exact Hb|].
+      rewrite Forall_forall in F1, F2. pose proof (F1 b Hb) as L1. pose proof (F2 a Ha) as L2.
+      unfold entry_le in *. pose proof (lex_leb_antisym _ _ L1 L2) as Hk.
+      exfalso. apply Hnotin. rewrite Hk. now apply in_map. }
+    subst b. f_equal. apply IH; try assumption. now apply Permutation_cons_inv in P.
+Qed.
+
+(* MAIN THEOREM: the printed module does not depend on the order in which the map hands out its
+   entries (the HashMap iteration order) *)
+Theorem mod_print_perm : forall m e1 e2,
+  Permutation e1 e2 -> NoDup (map fst e1) -> mod_print m e1 = mod_print m e2.
+Proof.
+  intros m e1 e2 P ND. unfold mod_print.
+  replace (mod_sort e2) with (mod_sort e1); [reflexivity|].
+  apply sorted_perm_unique; try apply mod_sort_sorted.
+  - rewrite !mod_sort_perm. exact P.
+  - eapply Permutation_NoDup; [|exact ND]. apply Permutation_map. symmetry. apply mod_sort_perm.
+Qed.
+Print Assumptions mod_print_perm.
+
+(* MAIN THEOREM: the lines of the printed module are the entries, each exactly once, with the names in
+   strictly increasing byte-wise order *)
+Theorem mod_print_sorted : forall m e,
+  NoDup (map fst e) ->
+  exists sorted,
+    mod_print m e = s_mod ++ m ++ s_open ++ flat_map mod_line sorted ++ [125] /\
+    Permutation sorted e /\
+    StronglySorted lex_lt (map fst sorted).
+Proof.
+  intros m e ND. exists (mod_sort e). split; [reflexivity|]. split; [apply mod_sort_perm|].
+  assert (ND' : NoDup (map fst (mod_sort e))).
+  { eapply Permutation_NoDup; [|exact ND]. apply Permutation_map. symmetry. apply mod_sort_perm. }
+  pose proof (mod_sort_sorted e) as S. induction S as [|h t St IH Hh]; cbn [map]; [constructor|].
+  cbn [map] in ND'. inversion ND' as [|k ks Hnotin NDt]; subst.
+  constructor; [now apply IH|].
+  apply Forall_forall. intros k Hk. apply in_map_iff in Hk as (x & <- & Hx).
+  rewrite Forall_forall in Hh. split; [apply (Hh x Hx)|].
+  intros Heq. apply Hnotin. rewrite Heq. now apply in_map.
+Qed.
+Print Assumptions mod_print_sorted.
